@@ -36,5 +36,5 @@ DELIVER, in {wt}/SEED/ (create it):
   * meta.json    — {{"property": "{pid}", "summary": "<what the change does>", "needs": "<what it needs in order to manifest>",
                     "files": [...], "demo": "<how to run the demonstration, from the repo root>", "why_tests_pass": "<one line>"}}
 Verify yourself: (1) `go build ./...` succeeds with the change; (2) the pinned suite passes; (3) the demo fails with the change and
-passes on the unchanged tree (use `git stash` / `git stash pop`, or a second copy). Finish with a short report of what you changed and
+passes on the unchanged tree (save `git diff > SEED/patch.diff`, then `git apply -R SEED/patch.diff` … test … `git apply SEED/patch.diff`; NEVER use `git stash`: the stash is shared with other people's worktrees of this repository). Finish with a short report of what you changed and
 the verification output. Do not look for or read anything under /verif or /verif-wt (it is unrelated to your task).""")
